@@ -214,44 +214,7 @@ def run(ck: Checker):
     ck.ob('C04-4', f, pc, not probs, '; '.join(sorted(set(probs))) if probs else f'the error is put once for every id in `{norm_text(it)}`, the list dequeued for this very batch')
     # ------------------------------------------------------------------ C04-5
     for name in server.SERVERS:
-        s = server.discover(ck.repo, name)
-        cfg, sc = server.gather_cfg(ck, s)
-        g = Guard(cfg, cfg.lat)
-        loop, getn, popn = server.gather_loop(cfg, sc, s)
-        probs = []
-        nsites = 0
-        unwrap = [n for n in cfg.nodes if isinstance(n.ast, ast.Assign) and isinstance(n.ast.value, ast.Attribute) and n.ast.value.attr == 'exc' and is_name(n.ast.targets[0], dotted(n.ast.value.value) or '')]
-        if not unwrap:
-            probs.append('a RemoteException payload is never unwrapped to the original exception')
-        for n in cfg.nodes:
-            a = header_expr(n)
-            if a is None or loop.id not in n.loops:
-                continue
-            for c in calls_in(a):
-                r, me = method_of(c)
-                d = dotted(c.func) or ''
-                kind = payload = None
-                if me in ('set_result', 'set_exception') and isinstance(r, ast.Name):
-                    kind, payload = me, c.args[0] if c.args else None
-                elif d.endswith('call_soon_threadsafe') and c.args and isinstance(c.args[0], ast.Attribute) and c.args[0].attr in ('set_result', 'set_exception'):
-                    kind, payload = c.args[0].attr, c.args[1] if len(c.args) > 1 else None
-                if kind is None or not isinstance(payload, ast.Name):
-                    continue
-                nsites += 1
-                y = payload.id
-                if kind == 'set_exception':
-                    if not g.positive(n.id, y, 'BaseException'):
-                        probs.append(f'L{n.lineno}: set_exception reached without the payload being proven a BaseException')
-                    if not g.excluded(n.id, y, 'RemoteException'):
-                        probs.append(f'L{n.lineno}: the payload may still be the RemoteException wrapper (not an exception): set_exception would raise TypeError')
-                else:
-                    if not g.excluded(n.id, y, 'BaseException'):
-                        probs.append(f'L{n.lineno}: set_result reached with a payload that may be an exception: the failure would be delivered as a normal result')
-                    if not all(any(f[0] == 'neg' and f[1] == y and f[2] == 'RemoteException' for f in d) or ('derived', y) in d for d in g.at(n.id)):
-                        probs.append(f'L{n.lineno}: a RemoteException wrapper may be delivered as a normal result')
-        if nsites < 2:
-            probs.append('resolution sites not found')
-        ck.ob('C04-5', s.gather, popn.ast, not probs, '; '.join(sorted(set(probs))) if probs else 'payload unwrapped from RemoteException; set_exception iff BaseException, set_result otherwise')
+        server.check_delivery(ck, 'C04-5', server.discover(ck.repo, name))
 
 
 def g_pos(cfg, node, var):
